@@ -241,7 +241,9 @@ EST_FACTOR = 25  # max_ops = EST_FACTOR * (estimated worst-case ops): the estima
 
 def _limit(c: MacroContract, tier: str) -> int:
     """all tuples when there are <= cap of them; otherwise as many as the time budget of one (contract, width) allows"""
-    cap, budget_s = (4096, 12.0) if tier == 'thorough' else (256, 2.5)
+    cap, budget_s = (4096, 8.0) if tier == 'thorough' else (256, 2.5)
+    if c.name.startswith('seq['):
+        budget_s = 2.0
     total = 1
     for v in c.vars.values():
         if v.role != 'out':
@@ -439,7 +441,6 @@ def contracts(tier: str, seed: int = 0) -> List[MacroContract]:
 
     # ------------------------------------------------------------------ arithmetic, quadratic cost
     for n in ns_quad:
-        M = (1 << n) - 1
         q_est = 260 * n * n + 200
         add('bit.mul[n]', f'bit.mul {n}, x, y', {'x': X(n), 'y': I(n)}, lambda v: {'x': v['x'] * v['y']}, 'dst[:n] *= src[:n]', n, est=q_est)
         add('bit.mul[n]', f'bit.mul {n}, x, x', {'x': X(n)}, lambda v: {'x': v['x'] * v['x']}, 'dst[:n] *= src[:n]  (@NOTE: safe when dst and src are the same address (squaring: dst *= dst))', n, est=q_est)
@@ -468,21 +469,21 @@ def contracts(tier: str, seed: int = 0) -> List[MacroContract]:
     # ------------------------------------------------------------------ thorough: every operand pair at n = 8 (one width each)
     if thorough:
         n = 8
-        both: List[Tuple[str, str, Callable[[Vals], Vals], bool]] = [
-            ('bit.add[n]', 'bit.add {n}, x, y', lambda v: {'x': v['x'] + v['y']}, True),
-            ('bit.sub[n]', 'bit.sub {n}, x, y', lambda v: {'x': v['x'] - v['y']}, True),
-            ('bit.xor[n]', 'bit.xor {n}, x, y', lambda v: {'x': v['x'] ^ v['y']}, True),
-            ('bit.or[n]', 'bit.or {n}, x, y', lambda v: {'x': v['x'] | v['y']}, True),
-            ('bit.and[n]', 'bit.and {n}, x, y', lambda v: {'x': v['x'] & v['y']}, True),
-            ('bit.mov[n]', 'bit.mov {n}, x, y', lambda v: {'x': v['y']}, True),
-            ('bit.xor_zero[n]', 'bit.xor_zero {n}, x, y', lambda v: {'x': v['x'] ^ v['y'], 'y': 0}, False),
-            ('bit.swap[n]', 'bit.swap {n}, x, y', lambda v: {'x': v['y'], 'y': v['x']}, False),
+        both: List[Tuple[str, str, Callable[[Vals], Vals], bool, str]] = [
+            ('bit.add[n]', 'bit.add {n}, x, y', lambda v: {'x': v['x'] + v['y']}, True, 'dst[:n] += src[:n]'),
+            ('bit.sub[n]', 'bit.sub {n}, x, y', lambda v: {'x': v['x'] - v['y']}, True, 'dst[:n] -= src[:n]'),
+            ('bit.xor[n]', 'bit.xor {n}, x, y', lambda v: {'x': v['x'] ^ v['y']}, True, 'dst[:n] ^= src[:n]'),
+            ('bit.or[n]', 'bit.or {n}, x, y', lambda v: {'x': v['x'] | v['y']}, True, 'dst[:n] |= src[:n]'),
+            ('bit.and[n]', 'bit.and {n}, x, y', lambda v: {'x': v['x'] & v['y']}, True, 'dst[:n] &= src[:n]'),
+            ('bit.mov[n]', 'bit.mov {n}, x, y', lambda v: {'x': v['y']}, True, 'dst[:n] = src[:n]'),
+            ('bit.xor_zero[n]', 'bit.xor_zero {n}, x, y', lambda v: {'x': v['x'] ^ v['y'], 'y': 0}, False, 'dst[:n] ^= src[:n] ; src[:n] = 0'),
+            ('bit.swap[n]', 'bit.swap {n}, x, y', lambda v: {'x': v['y'], 'y': v['x']}, False, 'a[:n], b[:n] = b[:n], a[:n]'),
         ]
-        for i, (nm, call, post, src_in) in enumerate(both):
-            c = add(nm, call.format(n=n), {'x': X(n), 'y': I(n) if src_in else X(n)}, post, 'every operand pair at n = 8', n)
+        for i, (nm, call, post, src_in, doc) in enumerate(both):
+            c = add(nm, call.format(n=n), {'x': X(n), 'y': I(n) if src_in else X(n)}, post, doc + '   (every operand pair at n = 8)', n)
             c.widths = (ROT[0][i % 3],)
             c.domain = _fixed(c, seed)
-        c = add('bit.cmp[n]', f'bit.cmp {n}, x, y, l0, l1, l2', {'x': I(n), 'y': I(n)}, lambda v: {}, 'every operand pair at n = 8', n, exits=('l0', 'l1', 'l2'), exit_=cmp3)
+        c = add('bit.cmp[n]', f'bit.cmp {n}, x, y, l0, l1, l2', {'x': I(n), 'y': I(n)}, lambda v: {}, 'jump to: a[:n] < b[:n]: lt ; a[:n] = b[:n]: eq ; a[:n] > b[:n]: gt   (every operand pair at n = 8)', n, exits=('l0', 'l1', 'l2'), exit_=cmp3)
         c.widths = (32,)
         c.domain = _fixed(c, seed)
     return cs
@@ -526,3 +527,12 @@ def covering_compositions(cs: Sequence[MacroContract], seed: int, per: str = 'na
                 shapes.update({nm: (v.kind, v.n) for nm, v in nxt.vars.items()})
             out.append(stl.compose([c for c in seq if c is not None]))
     return out
+
+
+def one_width_each(seqs: Sequence[MacroContract]) -> None:
+    """a composition is executed at ONE width (also in the thorough tier, where they are many): the widths rotate over the list"""
+    for i, c in enumerate(seqs):
+        if len(c.widths) > 1:
+            big = c.max_ops // EST_FACTOR >= 2400  # may not fit in 16 bits of memory
+            ws = [w for w in c.widths if not (big and w == 16)] or list(c.widths)
+            c.widths = (ws[i % len(ws)],)
